@@ -204,6 +204,7 @@ theorem decodeTokens_ok (ll dl : List Nat) {fuel : Nat} {plain : Array Nat} {bs 
   | zero => simp [decodeTokens] at h
   | succ fuel ih =>
     rw [decodeTokens] at h
+    rw [if_neg (fun hc => by rw [if_pos hc] at h; cases h)] at h
     simp only [bind_eq_ok] at h
     obtain ⟨⟨sym, bs1⟩, h1, h⟩ := h
     simp only at h
@@ -311,6 +312,8 @@ theorem readBlock_ok {plain : Array Nat} {bs : Bits} {last : Bool} {b : Block} {
     split at h
     · simp only [throw_bind_eq_ok] at h
     · rename_i hsum
+      split at h
+      · simp only [throw_bind_eq_ok] at h
       simp only [bind_eq_ok] at h
       obtain ⟨⟨data, bs6⟩, h6, h⟩ := h
       simp only [Except.ok.injEq, Prod.mk.injEq] at h
